@@ -293,3 +293,62 @@ def lin_add(a, b, sign=1):
     return {k: v for k, v in out.items() if v}, a[1] + sign * b[1]
 
 
+
+
+def path_conditions(ctx, f, node):
+    """Tests decided on every path from the entry of f to `node`: -> list of (test expression, truth value).  A test counts
+    when cutting its other edge out of the graph leaves `node` reachable but cutting this edge does not."""
+    g = ctx.cfg(f)
+    out = []
+    for tn in g.live_nodes():
+        if tn.kind != "test" or tn is node:
+            continue
+        labs = set(l for _d, l in g.succ[tn] if l in ("true", "false"))
+        for lab in sorted(labs):
+            r = g.reach([g.entry], exc=True, include_start=True, edge_filter=lambda s_, d_, l_, tn=tn, lab=lab: not (s_ is tn and l_ == lab))
+            if node not in r:
+                out.append((tn.ast.test, lab == "true"))
+    return out
+
+
+def decide_under(conds, formula):
+    """Truth value of the propositional `formula` (an AST built from not/and/or over arbitrary atoms) on all valuations of the
+    atoms that satisfy every (test, value) of `conds`; None when it is not determined (or there are too many atoms)."""
+    import ast as _ast
+    import itertools
+
+    def atoms(e, acc):
+        if isinstance(e, _ast.UnaryOp) and isinstance(e.op, _ast.Not):
+            atoms(e.operand, acc)
+        elif isinstance(e, _ast.BoolOp):
+            for v in e.values:
+                atoms(v, acc)
+        elif isinstance(e, _ast.Constant) and isinstance(e.value, bool):
+            pass
+        else:
+            acc.add(_ast.dump(e))
+
+    def ev(e, val):
+        if isinstance(e, _ast.UnaryOp) and isinstance(e.op, _ast.Not):
+            return not ev(e.operand, val)
+        if isinstance(e, _ast.BoolOp):
+            rs = [ev(v, val) for v in e.values]
+            return all(rs) if isinstance(e.op, _ast.And) else any(rs)
+        if isinstance(e, _ast.Constant) and isinstance(e.value, bool):
+            return e.value
+        return val[_ast.dump(e)]
+    acc = set()
+    atoms(formula, acc)
+    for t, _v in conds:
+        atoms(t, acc)
+    names = sorted(acc)
+    if len(names) > 10:
+        return None
+    seen = set()
+    for bits in itertools.product((False, True), repeat=len(names)):
+        val = dict(zip(names, bits))
+        if all(ev(t, val) == v for t, v in conds):
+            seen.add(ev(formula, val))
+    if len(seen) == 1:
+        return next(iter(seen))
+    return None
